@@ -126,6 +126,121 @@ def sentinel_value_cases():
     return out
 
 
+def same_name_alias_cases():
+    """aliases declared under ONE name with different targets, one after the other: each accepts what ITS target accepts"""
+    out = []
+    targets = [(lambda: schema.int.min(1), [7, 0, "abc"]), (lambda: schema.str.len(3), ["abc", "ab", 7]),
+               (lambda: schema.list(schema.int), [[1], ["a"], 7]), (lambda: schema.dict({"k": schema.none}), [{"k": None}, {}, 7]),
+               (lambda: schema.any(schema.none, schema.bool), [None, True, 7])]
+    for name in ("id", "x", ""):
+        built = []
+        for mk, vals in targets:
+            try:
+                built.append((schema.alias(name, mk()), vals))
+            except Exception:  # noqa: BLE001
+                continue
+        for a, vals in built + built[::-1]:          # used after ALL of them were declared, in both orders
+            for v in vals:
+                out.append(ValCase(a, v, "same-name-alias"))
+                out.append(ValCase(schema.dict({"a": a}), {"a": v}, "same-name-alias"))
+    return out
+
+
+def alias_target_probe(ctx):
+    """C02 / C13: an alias accepts what ITS target accepts — also when the name was used before for another target"""
+    from d42 import validate
+    from . import conforms
+    targets = [(lambda: schema.int.min(1), [7, 0, "abc", None]), (lambda: schema.str.len(3), ["abc", "ab", 7]),
+               (lambda: schema.list(schema.int), [[1], ["a"], 7]), (lambda: schema.dict({"k": schema.none}), [{"k": None}, {}, 7]),
+               (lambda: schema.any(schema.none, schema.bool), [None, True, 7]), (lambda: schema.int.min(1), [7, 0])]
+    for name in ("id", "x", ""):
+        for rounds in range(2):
+            for mk, vals in targets:
+                ctx.count("alias_target_probes")
+                try:
+                    a, t = schema.alias(name, mk()), mk()
+                except Exception:  # noqa: BLE001
+                    continue
+                for wrap_s, wrap_v in ((lambda x: x, lambda v: v), (lambda x: schema.dict({"a": x}), lambda v: {"a": v}),
+                                       (lambda x: schema.list([x, ...]), lambda v: [v, 1])):
+                    for v in vals:
+                        got = not validate(wrap_s(a), wrap_v(v)).has_errors()
+                        want = conforms.conforms(wrap_s(t), wrap_v(v))
+                        if got != want:
+                            ctx.violation("validate accepts a non-conforming value" if got else "validate rejects a conforming value",
+                                          schema="schema.alias(%r, %s)" % (name, repr(t)), value=repr(wrap_v(v)),
+                                          note="the alias name had been used before for another target")
+                            return
+
+
+def shared_object_cases():
+    """ONE container object at two positions of a value whose positions expect DIFFERENT contents"""
+    out = []
+    d1, l1 = {"x": 1}, [1]
+    out.append(ValCase(schema.dict({"a": schema.dict({"x": schema.int(1)}), "b": schema.dict({"x": schema.int(2)})}), {"a": d1, "b": d1}, "shared-object"))
+    out.append(ValCase(schema.dict({"a": schema.dict({"x": schema.int(1)}), "b": schema.dict({"x": schema.int(1)})}), {"a": d1, "b": d1}, "shared-object"))
+    out.append(ValCase(schema.list([schema.list([schema.int(1)]), schema.list([schema.int(2)])]), [l1, l1], "shared-object"))
+    out.append(ValCase(schema.list([schema.list([schema.int(1)]), schema.list([schema.str])]), [l1, l1], "shared-object"))
+    out.append(ValCase(schema.dict({"owner": schema.dict({"n": schema.str("ann")}), "editor": schema.dict({"n": schema.str("bob")})}),
+                       (lambda o: {"owner": o, "editor": o})({"n": "ann"}), "shared-object"))
+    out.append(ValCase(schema.list(schema.any(schema.list([schema.int(1)]), schema.list([schema.int(2)]))).len(2), [l1, l1], "shared-object"))
+    out.append(ValCase(schema.dict({"a": schema.list(schema.int), "b": schema.list(schema.str)}), (lambda o: {"a": o, "b": o})([1, 2]), "shared-object"))
+    return out
+
+
+def revalidation_sequences(check):
+    """validate, change the value IN PLACE (repair it, break it, move the fault), validate the same objects again: the second
+    answer is about the value as it is now. `check(schema, value, errors, label)` judges one answer."""
+    import copy
+    from d42 import validate
+    seqs = [
+        (lambda: schema.dict({"id": schema.int, "tags": schema.list(schema.str)}), lambda: {"id": "7", "tags": ["a", 2]},
+         [lambda v: v.__setitem__("id", 7), lambda v: v["tags"].__setitem__(1, "b"), lambda v: v["tags"].append(3), lambda v: v.pop("id")]),
+        (lambda: schema.list([schema.int, schema.str, ...]), lambda: [1, 2, 3],
+         [lambda v: v.__setitem__(1, "s"), lambda v: v.__setitem__(0, "x"), lambda v: v.clear()]),
+        (lambda: schema.list(schema.dict({"k": schema.int.min(0)})), lambda: [{"k": 1}, {"k": -1}],
+         [lambda v: v[1].__setitem__("k", 5), lambda v: v[0].__setitem__("k", -5), lambda v: v.append({"k": "s"})]),
+        (lambda: schema.any(schema.dict({"a": schema.int}), schema.list(schema.int)), lambda: {"a": "x"},
+         [lambda v: v.__setitem__("a", 1), lambda v: v.__setitem__("b", 2)]),
+    ]
+    for mk_s, mk_v, muts in seqs:
+        try:
+            s = mk_s()
+        except Exception:  # noqa: BLE001
+            continue
+        v = mk_v()
+        check(s, v, validate(s, v).get_errors(), "first validation")
+        for i, m in enumerate(muts):
+            m(v)
+            errs = validate(s, v).get_errors()          # the SAME objects again, nothing else validated in between
+            fresh = [repr(e) for e in validate(mk_s(), copy.deepcopy(v)).get_errors()]
+            check(s, v, errs, "validation %d after an in-place change" % (i + 2), fresh)
+
+
+SPECIAL_KEYS = ["/users/{id}", "{}", "{", "}", "{0}", "%s", "%(a)s", "a\\b", "it's", 'say "x"', "line\nbreak", "", " ", (1, 2), ("a",), (), frozenset({1}), 5, None, True, 1.5, b"k"]
+
+
+def special_key_cases():
+    """dict KEYS special to str.format / %-formatting / quoting (and keys that are tuples, frozensets, numbers, bytes, None),
+    required and optional, in every place a message prints a schema: a union whose alternatives are such dicts (the
+    mismatch message embeds their repr), nested, next to values that match no alternative"""
+    out = []
+    for k in SPECIAL_KEYS:
+        for mk in (lambda k: schema.dict({k: schema.int}), lambda k: schema.dict({optional(k): schema.int, "z": schema.str}),
+                   lambda k: schema.dict({k: schema.dict({k: schema.int}), ...: ...})):
+            try:
+                d = mk(k)
+            except Exception:  # noqa: BLE001
+                continue
+            for s, vals in ((d, [{k: 1}, {k: "x"}, {}, 5]),
+                            (schema.any(d, schema.str), [{k: 1}, (1, 2), 5, float("nan"), b"b", {k: "x"}]),
+                            (schema.list(schema.any(d, schema.none)), [[{k: 1}, None], [5], [{k: None}]]),
+                            (schema.dict({"in": schema.any(schema.list(d), d)}), [{"in": [{k: 1}]}, {"in": 5}, {"in": {k: "x"}}])):
+                for v in vals:
+                    out.append(ValCase(s, v, "special-key"))
+    return out
+
+
 def touchy_cases():
     """(schema, value) cases whose nested validation raises from user code. The real validate may raise (not this
     family's business); whatever errors it RETURNS must still be true and located."""
